@@ -436,6 +436,11 @@ func (p *Prog) Paths(entry *ssa.Function, opts PSOpts) []*Path {
 		st := &state{env: map[envKey]*T{}, cells: map[cellKey]*T{}, cellSeq: map[cellKey]int{}, fields: map[string]*T{}, arrays: map[cellKey]map[int64]*T{}, gkeys: map[string]bool{}, resolve: map[int]*T{}, loopRange: map[int]string{}}
 		fr := x.newFrame(entry, nil)
 		for _, par := range entry.Params {
+			if g := x.p.paramAlwaysGlobal(par, 0); g != nil {
+				// a parameter that is handed the same package-level variable at every call is that variable
+				st.env[envKey{fr.id, par}] = &T{Op: "global", Name: g.Name(), V: par, Typ: concreteType(par.Type())}
+				continue
+			}
 			st.env[envKey{fr.id, par}] = &T{Op: "param", Name: x.p.ParamName(par), V: par, Typ: concreteType(par.Type())}
 		}
 		fr.free = map[*ssa.FreeVar]*T{}
